@@ -356,18 +356,8 @@ func c08Call(id string, known map[string]int) (digest string, err error) {
 				if e3 := fit.Encode(&again, f, archOrder(arg(2))); e3 != nil || !bytes.Equal(again.Bytes(), buf.Bytes()) {
 					callErr = fmt.Errorf("Encode of the same File value a second time: error %v, %d bytes where the first call wrote %d, or different bytes", e3, again.Len(), buf.Len())
 				}
-				// Array fields that are windows of larger buffers (spare capacity, another File's
-				// data right behind them): Encode reads them, it does not write into the caller's
-				// memory - the next File must still find its data there.
-				if shared := p.files[arg(1)](); shared != nil {
-					check := lib.ShareArrays(shared)
-					var sb bytes.Buffer
-					if es := fit.Encode(&sb, shared, archOrder(arg(2))); es != nil || !bytes.Equal(sb.Bytes(), buf.Bytes()) {
-						callErr = fmt.Errorf("Encode of an identical File whose array fields have spare capacity: error %v, or bytes different from the first call", es)
-					} else if msg := check(); msg != "" {
-						callErr = fmt.Errorf("Encode wrote into the caller's memory behind an array field (where another File's field may live): %s", msg)
-					}
-				}
+				// (This step comes directly after the two Encodes of f: whatever Encode remembers about
+				// the File it saw last is still in place.)
 				// The caller edits messages of the File in place (same slices, same message
 				// objects, other field subsets) and encodes again: the bytes must be those of an
 				// identical File that was never encoded before.
@@ -379,6 +369,18 @@ func c08Call(id string, known map[string]int) (digest string, err error) {
 					e5 := fit.Encode(&b2, fresh, archOrder(arg(2)))
 					if (e4 == nil) != (e5 == nil) || e4 == nil && !bytes.Equal(b1.Bytes(), b2.Bytes()) {
 						callErr = fmt.Errorf("Encode after the File was edited in place writes something else than Encode of an identical File that was never encoded before (errors %v / %v, %d / %d bytes)", e4, e5, b1.Len(), b2.Len())
+					}
+				}
+				// Array fields that are windows of larger buffers (spare capacity, another File's
+				// data right behind them): Encode reads them, it does not write into the caller's
+				// memory - the next File must still find its data there.
+				if shared := p.files[arg(1)](); shared != nil {
+					check := lib.ShareArrays(shared)
+					var sb bytes.Buffer
+					if es := fit.Encode(&sb, shared, archOrder(arg(2))); es != nil || !bytes.Equal(sb.Bytes(), buf.Bytes()) {
+						callErr = fmt.Errorf("Encode of an identical File whose array fields have spare capacity: error %v, or bytes different from the first call", es)
+					} else if msg := check(); msg != "" {
+						callErr = fmt.Errorf("Encode wrote into the caller's memory behind an array field (where another File's field may live): %s", msg)
 					}
 				}
 				g, de := fit.Decode(bytes.NewReader(buf.Bytes()))
